@@ -2,7 +2,7 @@
 Pool.close lie inside a `with self.count_lock:` region, plus the refusal reason given by the accept loop and the
 order of the bookkeeping statements.  Fail closed on any shape that the model (coq/Model/Pool.v) has no variant for."""
 import ast
-from tools.gen.gen import generator, parse, find_func, need, GenError, HEADER, cbool, ctext, ast_sha
+from tools.gen.gen import generator, parse, find_func, need, GenError, HEADER, cbool, ctext, ast_sha, tree_module, module_assign
 
 SHARED = ("idle", "busy", "closed")
 
@@ -100,6 +100,250 @@ def close_facts(func):
     return r1 is not None, r2 is not None, acc
 
 
+def probe_pool(tree):
+    """Second reader for the lock coverage: the tree's own Pool.process / notify_done / close are RUN (no threads: Worker.start
+    and Worker.join are stubbed) on recording twins of idle / busy / closed / count_lock; every access is recorded with the
+    lock region it happened in.  Accesses made from log.<level>(...) statements are ignored.  Same strictness as the ast
+    reader: a method is locked (whole call in one region), unlocked (no region), or the shape is rejected."""
+    import sys, threading
+    from tools.lib.coop_pool import log_lines
+    m = tree_module(tree, "Pyro5.svr_threads")
+    fname = m.__file__
+    loglines = log_lines(fname)
+    cfg = m.config
+    saved_cfg = (cfg.THREADPOOL_SIZE, cfg.THREADPOOL_SIZE_MIN)
+    W = m.Worker
+    saved_w = {k: W.__dict__.get(k) for k in ("start", "join")}
+    saved_sleep = m.time.sleep
+    rec = []
+
+    class RecLock(object):
+        def __init__(self):
+            self.held, self.regions = False, 0
+
+        def acquire(self, *a, **k):
+            need(not self.held, "count_lock acquired while held (threading.Lock is not re-entrant)")
+            self.held = True
+            self.regions += 1
+            return True
+
+        def release(self):
+            self.held = False
+
+        def __enter__(self):
+            self.acquire()
+            return self
+
+        def __exit__(self, *a):
+            self.release()
+            return False
+    lock = RecLock()
+
+    def note(attr, kind, depth=2):
+        f = sys._getframe(depth)
+        g, k = f, 0
+        while g is not None and k < 6:
+            if g.f_code.co_filename == fname and g.f_lineno in loglines:
+                return
+            g, k = g.f_back, k + 1
+        rec.append((attr, kind, lock.regions if lock.held else None, f.f_lineno))
+
+    class RSet(set):
+        _name, _live = "?", True
+
+        def _n(self, kind):
+            if self._live:
+                note(self._name, kind, 3)
+
+        def __len__(self):
+            self._n("load")
+            return set.__len__(self)
+
+        def __bool__(self):
+            self._n("load")
+            return set.__len__(self) > 0
+
+        def __contains__(self, x):
+            self._n("load")
+            return set.__contains__(self, x)
+
+        def __iter__(self):
+            self._n("load")
+            return iter(list(set.__iter__(self)))
+
+        def add(self, x):
+            self._n("load")
+            set.add(self, x)
+
+        def remove(self, x):
+            self._n("load")
+            set.remove(self, x)
+
+        def discard(self, x):
+            self._n("load")
+            set.discard(self, x)
+
+        def pop(self):
+            self._n("load")
+            return set.pop(self)
+
+    def setprop(name):
+        def g(self_):
+            return self_.__dict__["_" + name]
+
+        def st(self_, v):
+            old = self_.__dict__.get("_" + name)
+            if old is not None:
+                note(name, "store")
+                old._live = False
+            n = RSet(v)
+            n._name = name
+            self_.__dict__["_" + name] = n
+        return property(g, st)
+
+    def closed_get(self_):
+        note("closed", "load")
+        return self_.__dict__.get("_closed", False)
+
+    def closed_set(self_, v):
+        if "_closed" in self_.__dict__:
+            note("closed", "store")
+        self_.__dict__["_closed"] = v
+
+    class P(m.Pool):
+        idle = setprop("idle")
+        busy = setprop("busy")
+        closed = property(closed_get, closed_set)
+
+    def classify(calls, what):
+        verdicts = set()
+        for acc, nreg in calls:
+            acc = [a for a in acc]
+            need(acc, "%s touched none of idle/busy/closed when probed" % what)
+            inside = [a[2] is not None for a in acc]
+            if nreg == 0 and not any(inside):
+                verdicts.add(False)
+            else:
+                need(all(inside) and nreg == 1, "%s is only partly covered by count_lock when probed (%d regions, %d of %d accesses inside): no model variant"
+                     % (what, nreg, sum(inside), len(inside)))
+                verdicts.add(True)
+        need(len(verdicts) == 1, "%s takes count_lock on some paths only" % what)
+        return verdicts.pop()
+
+    def call(fn, *a):
+        del rec[:]
+        lock.regions = 0
+        try:
+            fn(*a)
+        except m.PoolError:
+            pass
+        return list(rec), lock.regions
+    try:
+        cfg.THREADPOOL_SIZE, cfg.THREADPOOL_SIZE_MIN = 2, 1
+        W.start = lambda self_: None
+        W.join = lambda self_, timeout=None: None
+        m.time.sleep = lambda x: None
+        pool = P()
+        pool.count_lock = lock
+        jobs = [lambda: None, lambda: None, lambda: None]
+        pc = [call(pool.process, j) for j in jobs]                # idle worker, new worker, refusal
+        busy = list(set.__iter__(pool.__dict__["_busy"]))
+        need(len(busy) == 2, "probe: expected two busy workers after two submits")
+        first = [w for w in busy if w.job is jobs[0]] + [w for w in busy if w.job is not jobs[0]]
+        for w in first:
+            w.job = None
+        nc = [call(pool.notify_done, w) for w in first]            # back to idle, retired
+        cc, _ = call(pool.close)
+    except GenError:
+        raise
+    except Exception as x:  # noqa
+        raise GenError("probing Pool failed: %s: %s" % (type(x).__name__, x))
+    finally:
+        cfg.THREADPOOL_SIZE, cfg.THREADPOOL_SIZE_MIN = saved_cfg
+        for k, v in saved_w.items():
+            if v is None:
+                try:
+                    delattr(W, k)
+                except AttributeError:
+                    pass
+            else:
+                setattr(W, k, v)
+        m.time.sleep = saved_sleep
+    lp = classify(pc, "Pool.process")
+    ln = classify(nc, "Pool.notify_done")
+    need(cc and cc[0][0] == "closed" and cc[0][1] == "load" and cc[0][2] is None,
+         "Pool.close does not start with the unlocked test of self.closed (probed)")
+    rest = cc[1:]
+    ks = [i for i, a in enumerate(rest) if a[0] == "closed" and a[1] == "store"]
+    need(len(ks) == 1, "Pool.close: expected exactly one assignment to self.closed (probed)")
+    part1, part2 = rest[:ks[0] + 1], rest[ks[0] + 1:]
+    need({a[0] for a in part1 if a[1] == "load"} >= {"busy", "idle"}, "Pool.close does not look at busy and idle before closed = True (probed)")
+    need([a[0] for a in part2 if a[1] == "store"] == ["idle", "busy"], "Pool.close: swap order is not idle, busy (probed)")
+    store_region = part1[-1][2]
+    need(not (store_region is None and {a[2] for a in part1[:-1]} != {None}),
+         "Pool.close assigns self.closed OUTSIDE the count_lock region in which it tells the workers to stop "
+         "(a Pool.process taking the lock in between still sees an open pool): no model variant")
+    r1, r2 = {a[2] for a in part1}, {a[2] for a in part2}
+    need(len(r1) == 1 and len(r2) == 1, "Pool.close: a phase is only partly inside count_lock: no model variant (probed)")
+    r1, r2 = r1.pop(), r2.pop()
+    need(r1 is None or r2 is None or r1 != r2, "Pool.close holds count_lock across the sleep (one region for both phases): no model variant")
+    return lp, ln, r1 is not None, r2 is not None, pc[0][0], nc[0][0], cc
+
+
+def probe_handback(tree):
+    """Second reader: run the tree's Worker.run loop in this thread on a stand-in whose job raises; the worker must clear its
+    slot and call pool.notify_done all the same."""
+    import logging, threading
+    m = tree_module(tree, "Pyro5.svr_threads")
+
+    class Stop(BaseException):
+        pass
+
+    class Ev(object):
+        def __init__(self):
+            self.n = 0
+
+        def wait(self, timeout=None):
+            self.n += 1
+            if self.n > 1:
+                raise Stop()
+            return True
+
+        def clear(self):
+            pass
+
+        def set(self):
+            pass
+
+        def is_set(self):
+            return True
+    seen = []
+
+    class FakePool(object):
+        def notify_done(self, worker):
+            seen.append(worker.job)
+
+    class Probe(m.Worker):
+        def __init__(self):
+            threading.Thread.__init__(self)
+
+    def job():
+        raise RuntimeError("probe: the job ends by raising")
+    w = Probe()
+    w.job_available, w.job, w.pool = Ev(), job, FakePool()
+    logging.disable(logging.CRITICAL)
+    try:
+        try:
+            m.Worker.run(w)
+        except Stop:
+            pass
+    except Exception as x:  # noqa
+        raise GenError("probing Worker.run failed: %s: %s" % (type(x).__name__, x))
+    finally:
+        logging.disable(logging.NOTSET)
+    return seen == [None]
+
+
 @generator("GenPool", "Pyro5/svr_threads.py")
 def gen_pool(tree):
     mod, _ = parse(tree, "Pyro5/svr_threads.py")
@@ -110,15 +354,34 @@ def gen_pool(tree):
     process = find_func(mod, "process", "Pool")
     notify = find_func(mod, "notify_done", "Pool")
     close = find_func(mod, "close", "Pool")
-    lp, accp, _ = whole_method_locked(process)
-    ln, accn, _ = whole_method_locked(notify)
-    l1, l2, accc = close_facts(close)
+    mode = {}
+    pcls = [n for n in mod.body if isinstance(n, ast.ClassDef) and n.name == "Pool"]
+    need(len(pcls) == 1, "class Pool not found exactly once")
+    helper_names = {n.name for n in pcls[0].body if isinstance(n, ast.FunctionDef)} - {"process", "notify_done", "close", "num_workers", "__init__"}
+
+    def calls_helper(fn):
+        return sorted({c.func.attr for c in ast.walk(fn) if isinstance(c, ast.Call) and isinstance(c.func, ast.Attribute)
+                       and isinstance(c.func.value, ast.Name) and c.func.value.id in ("self", "Pool") and c.func.attr in helper_names})
+    try:
+        for fn in (process, notify, close):
+            hs = calls_helper(fn)
+            need(not hs, "Pool.%s delegates to %s: coverage is read by running it" % (fn.name, ", ".join(hs)))
+        lp, accp, _ = whole_method_locked(process)
+        ln, accn, _ = whole_method_locked(notify)
+        l1, l2, accc = close_facts(close)
+        mode["locks"] = "ast"
+    except GenError as x_ast:
+        # second reader: run the three methods of the tree's own Pool on recording twins and look where the lock is held
+        lp, ln, l1, l2, accp, accn, accc = probe_pool(tree)
+        mode["locks"] = "probe (ast reader: %s)" % x_ast
     # num_workers itself must not take the (non re-entrant) lock
     nwk = find_func(mod, "num_workers", "Pool")
     need(not any(is_self_attr(n, "count_lock") for n in ast.walk(nwk)), "Pool.num_workers takes count_lock (process calls it while holding it)")
     # Worker.process / Worker.run must not touch the pool's sets or lock
-    for nm in ("process", "run"):
-        f = find_func(mod, nm, "Worker")
+    wcls = [n for n in mod.body if isinstance(n, ast.ClassDef) and n.name == "Worker"]
+    need(len(wcls) == 1, "class Worker not found exactly once")
+    for f in [n for n in wcls[0].body if isinstance(n, ast.FunctionDef) and n.name != "__init__"]:
+        nm = f.name
         for n in ast.walk(f):
             need(not (isinstance(n, ast.Attribute) and n.attr in ("idle", "busy", "closed", "count_lock")),
                  "Worker.%s touches pool bookkeeping directly" % nm)
@@ -129,35 +392,44 @@ def gen_pool(tree):
         if isinstance(n, ast.ExceptHandler) and isinstance(n.type, ast.Name) and n.type.id == "NoFreeWorkersError":
             for c in ast.walk(n):
                 if isinstance(c, ast.Call) and isinstance(c.func, ast.Attribute) and c.func.attr == "denyConnection":
-                    need(len(c.args) == 1 and isinstance(c.args[0], ast.Constant) and isinstance(c.args[0].value, str),
-                         "denyConnection is not called with a string literal")
-                    reasons.append(c.args[0].value)
+                    need(len(c.args) == 1, "denyConnection is not called with one argument")
+                    arg = c.args[0]
+                    if isinstance(arg, ast.Name):        # a module-level name for the text
+                        arg = module_assign(mod, arg.id)
+                    need(isinstance(arg, ast.Constant) and isinstance(arg.value, str),
+                         "denyConnection is not called with a string literal (or a module-level string constant)")
+                    reasons.append(arg.value)
     need(len(reasons) == 1, "expected exactly one `except NoFreeWorkersError: job.denyConnection(<text>)` in events()")
     need(reasons[0].strip() != "", "refusal reason is empty")
 
     # Worker.run: `self.job = None; self.pool.notify_done(self)` must follow the try statement around `self.job()`
     # unconditionally (a job that ends by raising is handed back like one that returns)
-    wrun = find_func(mod, "run", "Worker")
-    loops = [n for n in wrun.body if isinstance(n, ast.While)]
-    need(len(loops) == 1, "Worker.run: expected one while loop")
-    body = loops[0].body
-    tries = [k for k, st in enumerate(body) if isinstance(st, ast.Try) and any(
-        isinstance(c, ast.Call) and is_self_attr(c.func, "job") for c in ast.walk(st))]
-    need(len(tries) == 1, "Worker.run: expected exactly one try statement around self.job()")
-    tr = body[tries[0]]
-    catches_exception = any(isinstance(h.type, ast.Name) and h.type.id in ("Exception", "BaseException") or h.type is None for h in tr.handlers)
+    try:
+        wrun = find_func(mod, "run", "Worker")
+        loops = [n for n in wrun.body if isinstance(n, ast.While)]
+        need(len(loops) == 1, "Worker.run: expected one while loop")
+        body = loops[0].body
+        tries = [k for k, st in enumerate(body) if isinstance(st, ast.Try) and any(
+            isinstance(c, ast.Call) and is_self_attr(c.func, "job") for c in ast.walk(st))]
+        need(len(tries) == 1, "Worker.run: expected exactly one try statement around self.job()")
+        tr = body[tries[0]]
+        catches_exception = any(isinstance(h.type, ast.Name) and h.type.id in ("Exception", "BaseException") or h.type is None for h in tr.handlers)
 
-    def is_job_clear(st):
-        return isinstance(st, ast.Assign) and len(st.targets) == 1 and is_self_attr(st.targets[0], "job") \
-            and isinstance(st.value, ast.Constant) and st.value.value is None
+        def is_job_clear(st):
+            return isinstance(st, ast.Assign) and len(st.targets) == 1 and is_self_attr(st.targets[0], "job") \
+                and isinstance(st.value, ast.Constant) and st.value.value is None
 
-    def is_notify(st):
-        return isinstance(st, ast.Expr) and isinstance(st.value, ast.Call) and isinstance(st.value.func, ast.Attribute) \
-            and st.value.func.attr == "notify_done"
-    after = body[tries[0] + 1:]
-    in_try_only = len(tr.body) == 1 and not tr.orelse
-    handback = bool(catches_exception and in_try_only and len(after) >= 2 and is_job_clear(after[0]) and is_notify(after[1])
-                    and not any(isinstance(n, (ast.Break, ast.Continue, ast.Return, ast.Raise)) for h in tr.handlers for n in ast.walk(h)))
+        def is_notify(st):
+            return isinstance(st, ast.Expr) and isinstance(st.value, ast.Call) and isinstance(st.value.func, ast.Attribute) \
+                and st.value.func.attr == "notify_done"
+        after = body[tries[0] + 1:]
+        in_try_only = len(tr.body) == 1 and not tr.orelse
+        handback = bool(catches_exception and in_try_only and len(after) >= 2 and is_job_clear(after[0]) and is_notify(after[1])
+                        and not any(isinstance(n, (ast.Break, ast.Continue, ast.Return, ast.Raise)) for h in tr.handlers for n in ast.walk(h)))
+        mode["handback"] = "ast"
+    except GenError as x_ast:
+        handback = probe_handback(tree)
+        mode["handback"] = "probe (ast reader: %s)" % x_ast
     # accept loop: the accepted socket gets its COMMTIMEOUT before the connection is submitted (so the refusal
     # handshake, which runs in the accept-loop thread, cannot block forever on a silent peer)
     blocks = [n for n in ast.walk(ev) if isinstance(n, ast.With)]
@@ -175,6 +447,7 @@ def gen_pool(tree):
     def show(acc):
         return ["%s:%s@%d:%s" % (a, k, ln_, "OUT" if r is None else "in%d" % r) for a, k, r, ln_ in acc]
     out = HEADER % "Pyro5/svr_threads.py"
+    out += "(* readers: %s *)\n" % "; ".join("%s=%s" % (k, v.split(" ")[0]) for k, v in sorted(mode.items()))
     out += "(* Pool.process: %s *)\n" % show(accp)
     out += "Definition pool_process_locked : bool := %s.\n" % cbool(lp)
     out += "(* Pool.notify_done: %s *)\n" % show(accn)
@@ -189,5 +462,5 @@ def gen_pool(tree):
     out += "(* reason passed to denyConnection when the pool is full: %r *)\n" % reasons[0]
     out += "Definition deny_reason : list N := %s.\n" % ctext(reasons[0])
     return out, {"process_locked": lp, "notify_locked": ln, "close1_locked": l1, "close2_locked": l2, "deny_reason": reasons[0],
-                 "worker_handback": handback, "accept_timeout_before_submit": timeout_first,
+                 "worker_handback": handback, "mode": mode, "accept_timeout_before_submit": timeout_first,
                  "ast_sha": {"process": ast_sha(process), "notify_done": ast_sha(notify), "close": ast_sha(close)}}
